@@ -79,12 +79,14 @@ B('B-index-init-donor-guard', ['C02', 'C09'], 'index.py', 'Index.__init__',
   'if labels._recache:\n                labels._update_array_cache()\n', 'pass\n', 'B.recache[Index]', 'Index.__init__')
 B('B-index-mutate-after-guard', ['C02', 'C09'], 'index.py', 'Index.__len__',
   'return len(self._labels)', 'self._recache = True\n        return len(self._labels)', 'B.recache[Index]', 'Index.__len__')
-B('B-ih-values-at-depth', ['C05', 'C09'], 'index_hierarchy.py', 'IndexHierarchy.values_at_depth',
+B('B-ih-values-at-depth', ['C02', 'C05', 'C09'], 'index_hierarchy.py', 'IndexHierarchy.values_at_depth',
   'if self._recache:\n            self._update_array_cache()\n', 'pass\n', 'B.recache[IndexHierarchy]', 'IndexHierarchy.values_at_depth')
-B('B-ih-len-branch', ['C05', 'C09'], 'index_hierarchy.py', 'IndexHierarchy.__len__',
+B('B-ih-len-branch', ['C02', 'C05', 'C09'], 'index_hierarchy.py', 'IndexHierarchy.__len__',
   'if self._recache:\n            # avoid full recache\n            return self._levels.__len__()\n', 'pass\n', 'B.recache[IndexHierarchy]', 'IndexHierarchy.__len__')
-B('B-ih-init-donor', ['C05', 'C09'], 'index_hierarchy.py', 'IndexHierarchy.__init__',
+B('B-ih-init-donor', ['C02', 'C05', 'C09'], 'index_hierarchy.py', 'IndexHierarchy.__init__',
   'if not levels._recache:\n                self._blocks = levels._blocks.copy()', 'if True:\n                self._blocks = levels._blocks.copy()', 'B.recache[IndexHierarchy]', 'IndexHierarchy.__init__')
+B('B-ih-init-donor-blocks-realised', ['C02', 'C05', 'C09'], 'index_hierarchy.py', 'IndexHierarchy.__init__',
+  'if not levels._recache:\n                self._blocks = levels._blocks.copy()', 'if levels._blocks is not None:\n                self._blocks = levels._blocks.copy()', 'B.recache[IndexHierarchy]', 'IndexHierarchy.__init__')
 B('B-ih-external-reader', ['C05', 'C09'], 'frame.py', 'Frame.relabel_shift_in',
   'if index_target._recache:\n                index_target._update_array_cache()\n', 'pass\n', 'B.recache[IndexHierarchy]', 'relabel_shift_in')
 B('B-arraygo-len', ['C02', 'C05'], 'array_go.py', 'ArrayGO.__len__',
@@ -841,3 +843,17 @@ B('NK-equals-skipna-kind-gated', ['C10'], 'type_blocks.py', 'TypeBlocks.equals',
   '        if skipna:\n            isna_self = self.isna(include_none=False)', '        if skipna and self._row_dtype is not None:\n            skipna = self._row_dtype.kind in DTYPE_INEXACT_KINDS or self._row_dtype.kind == DTYPE_OBJECT.kind\n        if skipna:\n            isna_self = self.isna(include_none=False)', 'I.nullable-kinds', 'TypeBlocks.equals')
 
 VARIANTS = V
+
+# ---------------------------------------------------------------------------------- slice cardinality (C03 / C08 / C10)
+B('SC-single-row-span', ['C03'], 'type_blocks.py', 'TypeBlocks._slice_blocks',
+  'if len(range(*row_key.indices(self._shape[0]))) == 1:', 'start, stop, _ = row_key.indices(self._shape[0])\n            if stop - start == 1:', 'I.slice-cardinality', '_slice_blocks')
+B('SC-single-row-span-subscript', ['C03'], 'type_blocks.py', 'TypeBlocks._slice_blocks',
+  'if len(range(*row_key.indices(self._shape[0]))) == 1:', 'bounds = row_key.indices(self._shape[0])\n            if bounds[1] - bounds[0] == 1:', 'I.slice-cardinality', '_slice_blocks')
+B('SC-fill-limit-span', ['C10'], 'util.py', 'slices_from_targets',
+  'shift = len(range(*target_slice.indices(length))) - limit', 'lo, hi, _step = target_slice.indices(length)\n                shift = (hi - lo) - limit', 'I.slice-cardinality', 'slices_from_targets')
+B('SC-assign-width-span', ['C08'], 'type_blocks.py', 'TypeBlocks._assign_from_iloc_by_unit',
+  'v_width = len(range(*target_key.indices(b.shape[1])))', 'k0, k1, _ = target_key.indices(b.shape[1])\n                        v_width = k1 - k0', 'I.slice-cardinality', '_assign_from_iloc_by_unit')
+N('SC-single-row-unpacked-range', ['C03'], 'type_blocks.py', 'TypeBlocks._slice_blocks',
+  'if len(range(*row_key.indices(self._shape[0]))) == 1:', 'start, stop, step = row_key.indices(self._shape[0])\n            if len(range(start, stop, step)) == 1:')
+N('SC-single-row-ceil', ['C03'], 'type_blocks.py', 'TypeBlocks._slice_blocks',
+  'if len(range(*row_key.indices(self._shape[0]))) == 1:', 'start, stop, step = row_key.indices(self._shape[0])\n            if step > 0 and 0 < stop - start <= step or step < 0 and 0 < start - stop <= -step:')
